@@ -561,9 +561,9 @@ func (g *Graph) reach(starts []int, blockV func(v *Vertex) bool, blockE func(e E
 	visited := map[state]bool{}
 	type item struct {
 		v   int
-		env map[types.Object]int8
+		env map[types.Object]int64
 	}
-	key := func(env map[types.Object]int8) string {
+	key := func(env map[types.Object]int64) string {
 		if len(env) == 0 {
 			return ""
 		}
@@ -595,7 +595,7 @@ func (g *Graph) reach(starts []int, blockV func(v *Vertex) bool, blockE func(e E
 		env := it.env
 		// effects of the vertex
 		if effs := g.flagEff[it.v]; len(effs) > 0 {
-			ne := make(map[types.Object]int8, len(env)+len(effs))
+			ne := make(map[types.Object]int64, len(env)+len(effs))
 			for o, val := range env {
 				ne[o] = val
 			}
@@ -618,11 +618,11 @@ func (g *Graph) reach(starts []int, blockV func(v *Vertex) bool, blockE func(e E
 		}
 		decided := -1
 		var learn *flagTestT
-		if v.Kind == VCond {
+		if v.Kind == VCond || v.Kind == VSwitchCase {
 			if t, ok := g.flagTest[it.v]; ok {
 				if val, known := env[t.obj]; known {
 					// t.onTrue: the value for which the condition is true
-					if val == t.onTrue {
+					if (val == t.onTrue) != t.neq {
 						decided = LTrue
 					} else {
 						decided = LFalse
@@ -646,11 +646,16 @@ func (g *Graph) reach(starts []int, blockV func(v *Vertex) bool, blockE func(e E
 			env := baseEnv
 			if learn != nil && (e.Label == LTrue || e.Label == LFalse) {
 				val := learn.onTrue
-				if e.Label == LFalse {
+				if learn.onTrue >= flagIntBase-1000000 {
+					// integers: only the equal edge tells the value
+					if (e.Label == LTrue) == learn.neq {
+						val = flagUnknown
+					}
+				} else if e.Label == LFalse {
 					val = flagComplement(val)
 				}
 				if val != flagUnknown {
-					ne := make(map[types.Object]int8, len(baseEnv)+1)
+					ne := make(map[types.Object]int64, len(baseEnv)+1)
 					for o, x := range baseEnv {
 						ne[o] = x
 					}
@@ -678,8 +683,12 @@ func (g *Graph) reach(starts []int, blockV func(v *Vertex) bool, blockE func(e E
 	return seen
 }
 
+// flagIntBase + k encodes the integer constant k (|k| < 10^6): small state variables assigned
+// and compared with constants (session status codes …) are tracked like booleans
+const flagIntBase int64 = 2000000
+
 const (
-	flagUnknown int8 = iota
+	flagUnknown int64 = iota
 	flagFalse
 	flagTrue
 	flagNil
@@ -688,11 +697,11 @@ const (
 
 type flagEffect struct {
 	obj types.Object
-	val int8
+	val int64
 	src types.Object // x = y between tracked locals: x takes what is known about y
 }
 
-func flagComplement(v int8) int8 {
+func flagComplement(v int64) int64 {
 	switch v {
 	case flagTrue:
 		return flagFalse
@@ -708,7 +717,8 @@ func flagComplement(v int8) int8 {
 
 type flagTestT struct {
 	obj    types.Object
-	onTrue int8 // the flag value that makes the condition true
+	onTrue int64 // the flag value that makes the condition true
+	neq    bool  // integer `x != c`: true for every value but onTrue
 }
 
 // initFlags finds the flag variables of the function and their per-vertex effects / tests.
@@ -731,7 +741,7 @@ func (g *Graph) initFlags() {
 		}
 		return info.Defs[id]
 	}
-	constVal := func(e ast.Expr) int8 {
+	constVal := func(e ast.Expr) int64 {
 		e = ast.Unparen(e)
 		if tv, ok := info.Types[e]; ok {
 			if tv.IsNil() {
@@ -742,6 +752,11 @@ func (g *Graph) initFlags() {
 					return flagTrue
 				}
 				return flagFalse
+			}
+		}
+		if tv, ok := info.Types[e]; ok && tv.Value != nil && tv.Value.Kind() == constant.Int {
+			if k, exact := constant.Int64Val(tv.Value); exact && k > -1000000 && k < 1000000 {
+				return flagIntBase + k
 			}
 		}
 		if id, ok := e.(*ast.Ident); ok {
@@ -914,19 +929,28 @@ func (g *Graph) initFlags() {
 	}
 	g.flagTest = map[int]flagTestT{}
 	for _, v := range g.V {
+		if v.Kind == VSwitchCase && v.Tag != nil {
+			// switch x { case c: } is the test x == c
+			if o := objOfIdent(v.Tag); o != nil && g.flagVars[o] {
+				if c := constVal(v.Node.(ast.Expr)); c != flagUnknown {
+					g.flagTest[v.ID] = flagTestT{o, c, false}
+				}
+			}
+			continue
+		}
 		if v.Kind != VCond {
 			continue
 		}
 		e := ast.Unparen(v.Node.(ast.Expr))
 		if o := objOfIdent(e); o != nil && g.flagVars[o] {
 			if b, ok := o.Type().Underlying().(*types.Basic); ok && b.Info()&types.IsBoolean != 0 {
-				g.flagTest[v.ID] = flagTestT{o, flagTrue}
+				g.flagTest[v.ID] = flagTestT{o, flagTrue, false}
 			}
 			continue
 		}
 		if be, ok := e.(*ast.BinaryExpr); ok && (be.Op == token.EQL || be.Op == token.NEQ) {
 			var o types.Object
-			var c int8
+			var c int64
 			if oo := objOfIdent(be.X); oo != nil && g.flagVars[oo] {
 				o, c = oo, constVal(be.Y)
 			} else if oo := objOfIdent(be.Y); oo != nil && g.flagVars[oo] {
@@ -937,16 +961,20 @@ func (g *Graph) initFlags() {
 			}
 			// x == c is true exactly for the value c (values are only known when they are constants)
 			if be.Op == token.EQL {
-				g.flagTest[v.ID] = flagTestT{o, c}
+				g.flagTest[v.ID] = flagTestT{o, c, false}
 			} else {
 				// x != c: true for the other boolean value; for nil only "known nil" decides (false)
 				switch c {
 				case flagTrue:
-					g.flagTest[v.ID] = flagTestT{o, flagFalse}
+					g.flagTest[v.ID] = flagTestT{o, flagFalse, false}
 				case flagFalse:
-					g.flagTest[v.ID] = flagTestT{o, flagTrue}
+					g.flagTest[v.ID] = flagTestT{o, flagTrue, false}
 				case flagNil:
-					g.flagTest[v.ID] = flagTestT{o, flagNonNil}
+					g.flagTest[v.ID] = flagTestT{o, flagNonNil, false}
+				default:
+					if c >= flagIntBase-1000000 {
+						g.flagTest[v.ID] = flagTestT{o, c, true}
+					}
 				}
 			}
 		}
